@@ -16,6 +16,7 @@ class Obligation:
     hyps: list = field(default_factory=list)
     rels: list = field(default_factory=list)      # extra polynomial relations (lead, degree, rhs)
     positive: list = field(default_factory=list)  # atoms known > 0 (for the coefficient certificate)
+    unit: list = field(default_factory=list)      # atoms known to lie in (0, 1]
     theory: str = "nra"
     decided: dict | None = None   # verdict fixed by the generator (ground exact arithmetic, structural)
     meta: dict = field(default_factory=dict)      # line, path condition text, replay hints
@@ -69,15 +70,21 @@ def discharge(ob: Obligation, tier="quick"):
         except Exception as ex:  # pragma: no cover
             tried.append(f"qqnf-error:{type(ex).__name__}:{ex}")
     # 2. positive-coefficient certificate
-    if "poscert" in ob.backends and ob.positive and all(isinstance(c, (sp.Ge, sp.Gt, sp.Le, sp.Lt)) for c in conj):
+    if "poscert" in ob.backends and ob.positive and all(isinstance(c, (sp.Ge, sp.Gt, sp.Le, sp.Lt, sp.Ne)) for c in conj):
         try:
             ok = True
             for c in conj:
+                if isinstance(c, sp.Ne):
+                    e = c.lhs - c.rhs
+                    if not (B.poscert(e, ob.positive, strict=True, extra_rel=ob.rels, unit=ob.unit)):
+                        ok = False
+                        break
+                    continue
                 if isinstance(c, (sp.Ge, sp.Gt)):
                     e = c.lhs - c.rhs
                 else:
                     e = c.rhs - c.lhs
-                if not B.poscert(e, ob.positive, strict=isinstance(c, (sp.Gt, sp.Lt)), extra_rel=ob.rels):
+                if not B.poscert(e, ob.positive, strict=isinstance(c, (sp.Gt, sp.Lt)), extra_rel=ob.rels, unit=ob.unit):
                     ok = False
                     break
             if ok:
@@ -92,6 +99,8 @@ def discharge(ob: Obligation, tier="quick"):
         hyps.append(sp.Eq(lead ** deg, rhs))
     for a in ob.positive:
         hyps.append(sp.Gt(a, 0))
+    for a in ob.unit:
+        hyps.append(sp.Le(a, 1))
     res = None
     if "z3" in ob.backends:
         try:
